@@ -24,7 +24,10 @@ Stationary(s, z) == s.p = R(z) /\ s.v = R(0) /\ Dist2(s, z) = R(0)
 (* velocity = 0, and the distance of measurement i0 is 0.  Otherwise the mean is left  *)
 (* open here (it is decided on the exact runs of GenK.tla).                            *)
 OpsOver(M) == {<<"p", 0>>} \cup {<<o, j>> : o \in {"u", "d"}, j \in 1..M}
-StatState(h, i0, k) == \A i \in 1..k : h[i][1] = "u" => h[i][2] = i0
+(* "r": the vector filter only - point 1 of the state vector is re-initiated from measurement set j while the other
+   points keep their history (the vector filter treats its points independently) *)
+ReinitOps(M) == {<<"r", j>> : j \in 1..M}
+StatState(h, i0, k) == \A i \in 1..k : h[i][1] \in {"u", "r"} => h[i][2] = i0
 StatFlags(h, i0) == [k \in 1..Len(h) |-> IF StatState(h, i0, k) THEN 1 ELSE 0]
 ZeroDistFlags(h, i0) == [k \in 1..Len(h) |-> IF StatState(h, i0, k) /\ h[k] = <<"d", i0>> THEN 1 ELSE 0]
 =============================================================================
